@@ -85,6 +85,12 @@ Theorem C17_normal_full : forall c ns s,
 Proof. exact normal_exact. Qed.
 Print Assumptions C17_normal_full.
 
+(* the bounds above say "once time has passed the bound the production is in the trace"; time does pass:
+   in every state some select case or the next notification is enabled, so no schedule gets stuck *)
+Theorem C17_never_blocks_full : forall c s, exists ch s', step c s ch = Some s'.
+Proof. exact progress. Qed.
+Print Assumptions C17_never_blocks_full.
+
 (* ---- non-vacuity: concrete schedules meeting the hypotheses ---------------------------------------- *)
 
 (* block time 1 s, lazy interval 3 s, productions of 10 ms, no start-up sleep *)
